@@ -55,9 +55,11 @@ func (s *ExponentialBackoffRetryStrategy) Next() (time.Duration, bool) {
 		if reached, ok := s.maxIntervalReached.Load().(bool); ok && reached {
 			return s.maxInterval, true
 		}
-		interval := s.initialInterval * time.Duration(math.Pow(2, float64(retries-1)))
+		factor := time.Duration(math.Pow(2, float64(retries-1)))
+		interval := s.initialInterval * factor
 		// 溢出或当前重试间隔大于最大重试间隔
-		if interval <= 0 || interval > s.maxInterval {
+		// 乘法溢出后可能回绕成一个看似合法的正数，所以要用除法校验
+		if factor <= 0 || interval/factor != s.initialInterval || interval <= 0 || interval > s.maxInterval {
 			s.maxIntervalReached.Store(true)
 			return s.maxInterval, true
 		}
